@@ -46,6 +46,7 @@ def plan(prop, tier):
 
     if prop == "C01":
         par("collect(bag+merge)", ("collect_vec",), ["P_OrderedCollect", "P_BuffersSorted", "P_AtMostOnce", "P_ExactlyOnce", "P_DisjointPulls"])
+        P.append(("k-way heap merge, transcribed", "MC_Merge.tla", {"NK": "= 5" if q else "= 7", "NV": "= 3"}, ["SortedAndComplete", "ReadAtMostOnce", "AllMovedOut"], ["Terminates"]))
     elif prop == "C02":
         par("find", ("find",), ["P_FirstMatch", "P_AtMostOnce", "P_BoundedAfterSkip"], fans="Fans_find", srcs=("vec", "iter", "iterx"))
     elif prop == "C03":
@@ -68,6 +69,8 @@ def plan(prop, tier):
         par("sequential", ("collect_vec", "collect_x", "count", "reduce", "find"), ["P_Sequential"], nts_=(1,), fans="Fans_find", css="Cs_all")
     elif prop == "C10":
         par("find: early exit", ("find",), ["P_BoundedAfterSkip", "P_FirstMatch"], fans="Fans_find", srcs=("vec", "iterx") if q else ("vec", "iter", "iterx"), css="Cs_1_2_3" if not q else "Cs_1_2", NN_=(4 if q else 6))
+        P.append(("unbounded source: termination iff a match exists", "MC_FindInf.tla",
+                  {"K": "= 5" if q else "= 7", "NW": "= 3", "C": "= 2", "PublishExit": "= TRUE"}, [], ["TerminatesIfMatch", "RunsForeverOtherwise", "NoPullAfterExit"]))
     elif prop == "C11":
         par("exact chunks", ("collect_vec", "find") if q else ("collect_vec", "count", "find"), ["P_ExactPulls", "P_DisjointPulls"], css="Cs_1_2_3", fans="Fans_012" if q else "Fans_find",
             srcs=("vec", "iterx") if q else ("vec", "iter", "iterx"), NN_=(4 if q else 5), nts_=((3,) if q else None), live=not q)
@@ -75,6 +78,7 @@ def plan(prop, tier):
     elif prop == "C12":
         P.append(("builder state machine", "MC_ParApi.tla", {"Depth": "= 4" if not q else "= 3"}, ["TypeOK", "ParamsAreLastSet", "SequentialIffMax1"], []))
     elif prop == "C13":
+        P.append(("k-way heap merge: every pair moved out exactly once", "MC_Merge.tla", {"NK": "= 5" if q else "= 7", "NV": "= 3"}, ["ReadAtMostOnce", "AllMovedOut"], ["Terminates"]))
         P.append(("ownership tokens, no panic", "MC_Tokens.tla", tokens_consts(q, False), ["TypeOK", "NoDoubleDrop", "NoBadDrop", "NoLeakAtEnd"], []))
     elif prop == "C14":
         par("protocol with a panicking closure", ("collect_vec", "count", "find"), ["P_PanicPropagates", "P_AtMostOnce", "P_ThreadBound"],
